@@ -293,4 +293,130 @@ def voiceFrame (v center : Bits) : Bits := v.take 108 ++ (center ++ v.drop 108)
 def embCenter (e16 e32 : Bits) : Bits := e16.take 8 ++ (e32 ++ e16.drop 8)
 
 end Burst
+
+/-! ## the other entry points that yield a burst object (`Burst.from_mmdvm`, `Burst.from_hytera_ipsc`)
+
+Hardening after seeded change C01-F (serialisation made to depend on the non-ETSI `timeslot` attribute,
+which only these entry points — or a caller — set to 2).  Every entry point is `Burst.__init__` on the
+264 burst bits with an announced burst type it derives from the transport frame, followed by assignments
+to the attributes "not standardized in ETSI Layer II Burst" (`Aux`).  `as_bits` reads none of them: in
+the model the serialisation of a burst object is `Burst.serialise` of its ETSI part. -/
+
+/-- an attribute of a Kaitai frame object: the generated parser stores an `Enum` member (a plain `Enum`
+member never equals an `int`), a caller editing the object may store a plain int -/
+inductive KVal where
+  | member (v : Nat)
+  | int (v : Nat)
+deriving DecidableEq, Repr, Inhabited
+
+/-- `attribute == <int literal>` -/
+def KVal.eqInt : KVal → Nat → Bool
+  | .int v, n => v == n
+  | .member _, _ => false
+
+/-- `attribute == <Enum member with value n>` -/
+def KVal.eqMember : KVal → Nat → Bool
+  | .member v, n => v == n
+  | .int _, _ => false
+
+/-- the attributes of a `Burst` object outside the ETSI burst (set by `__init__` to these defaults) -/
+structure Aux where
+  timeslot : Nat := 1
+  sequenceNo : Nat := 0
+  sourceRadioId : Nat := 0
+  targetRadioId : Nat := 0
+  streamNo : Nat := 0
+  /-- `hytera_ipsc is not None` -/
+  viaIpsc : Bool := false
+deriving DecidableEq, Repr, Inhabited
+
+/-- a `Burst` object: the attributes `as_bits` and the property read, and the rest -/
+structure BurstObj where
+  core : Burst
+  aux : Aux
+deriving DecidableEq, Repr, Inhabited
+
+/-- `as_bits()` of the object -/
+def BurstObj.serialise (o : BurstObj) : Except Err Bits := o.core.serialise
+
+/-- what `Burst.from_mmdvm` reads of a `Mmdvm2020.TypeDmrData` object (`dmrBits` = `bytes_to_bits(dmr_data)`) -/
+structure MmdvmFrame where
+  frameType : KVal
+  slotNo : KVal
+  sequenceNo : Nat
+  sourceId : Nat
+  targetId : Nat
+  streamId : Nat
+  dmrBits : Bits
+deriving Repr, Inhabited
+
+namespace Burst
+
+/-- `BurstTypes.DataAndControl if mmdvm.frame_type == 2 else BurstTypes.Vocoder`: for the object the
+Kaitai parser returns the comparison of an `Enum` member with `2` is false, so every parsed frame is
+announced as vocoder (a data SYNC in the burst still makes it a data burst) -/
+def mmdvmAnnounced (f : MmdvmFrame) : BurstType :=
+  if f.frameType.eqInt 2 then .dataAndControl else .vocoder
+
+/-- the assignments after the constructor: `timeslot = 1 if slot_no == Timeslots.timeslot_1 else 2` … -/
+def mmdvmAux (f : MmdvmFrame) : Aux :=
+  { timeslot := if f.slotNo.eqMember mmdvmTimeslot1 then 1 else 2, sequenceNo := f.sequenceNo,
+    sourceRadioId := f.sourceId, targetRadioId := f.targetId, streamNo := f.streamId }
+
+/-- `Burst.from_mmdvm` -/
+def fromMmdvm (c : Crcs) (f : MmdvmFrame) : Except Err BurstObj :=
+  match parse c f.dmrBits (mmdvmAnnounced f) with
+  | .error e => .error e
+  | .ok q => .ok ⟨q, mmdvmAux f⟩
+
+end Burst
+
+/-- what `Burst.from_hytera_ipsc` reads of the IP site connect frame (`HyteraIPSC.from_ipsc_bytes` /
+`from_kaitai`; `payloadBits` = the 33 burst octets after the pairwise octet swap) -/
+structure IpscFrame where
+  slotType : Nat
+  callType : Nat
+  timeslot : Nat
+  sequenceNumber : Nat
+  sourceRadioId : Nat
+  destinationRadioId : Nat
+  payloadBits : Bits
+deriving Repr, Inhabited
+
+/-- which object `from_hytera_ipsc` makes: the two Hytera pseudo bursts (`HyteraIPSCSync`,
+`HyteraIPSCWakeup`: no ETSI burst, `as_bits` returns the bits given — not modelled further) or a `Burst`
+with an announced type -/
+inductive IpscKind where
+  | sync
+  | wakeup
+  | plain (bt : BurstType)
+deriving DecidableEq, Repr, Inhabited
+
+namespace Burst
+
+/-- the dispatch of `from_hytera_ipsc` (enum constructors raise `ValueError` for undefined values) -/
+def ipscKind (f : IpscFrame) : Except Err IpscKind :=
+  if !ipscSlotTypes.contains f.slotType then .error .valueError
+  else if !ipscCallTypes.contains f.callType then .error .valueError
+  else if (ipscTimeslots.lookup f.timeslot).isNone then .error .valueError
+  else if f.slotType = ipscSlotSync then .ok .sync
+  else if f.slotType = ipscSlotWakeup || ipscWakeupCalls.contains f.callType then .ok .wakeup
+  else .ok (.plain (if ipscVocoderSlots.contains f.slotType then .vocoder else .dataAndControl))
+
+def ipscAux (f : IpscFrame) : Aux :=
+  { timeslot := (ipscTimeslots.lookup f.timeslot).getD 2, sequenceNo := f.sequenceNumber,
+    sourceRadioId := f.sourceRadioId, targetRadioId := f.destinationRadioId, viaIpsc := true }
+
+/-- `Burst.from_hytera_ipsc` for the frames that carry an ETSI burst (`none`: a pseudo burst) -/
+def fromIpsc (c : Crcs) (f : IpscFrame) : Except Err (Option BurstObj) :=
+  match ipscKind f with
+  | .error e => .error e
+  | .ok .sync => .ok none
+  | .ok .wakeup => .ok none
+  | .ok (.plain bt) =>
+    match parse c f.payloadBits bt with
+    | .error e => .error e
+    | .ok q => .ok (some ⟨q, ipscAux f⟩)
+
+end Burst
 end Dmr
